@@ -201,6 +201,13 @@ def check_enum(E, declared, values, case_json):
     for o, m, nm in zip(ordinals, members, names):
         by_ord[o] = (m, nm)
 
+    # an unrelated protocol enum whose values (members and unrecognised ones) are integers like any other
+    try:
+        Other = build_enum(type(E), [["OtherOnly", 3], ["OtherToo", -424243]], "meta", name="OtherEnum")
+        Other(3), Other(5)
+    except Exception:  # noqa: BLE001 - scenery only
+        Other = None
+
     n_decl = n_undecl = 0
     for step, n in enumerate(values):
         clause = "construct_never_fails"
@@ -254,6 +261,18 @@ def check_enum(E, declared, values, case_json):
                     fail(clause, step, f"E.{hit[1]}", repr(y), f"E(E({n!r}))")
             elif not isinstance(y, E) or not (y == n) or hash(y) != hash(n):
                 fail(clause, step, int(n), repr(y), f"E(E({n!r}))")
+
+            if not (isinstance(values, range) and hit is None and step % 8):
+                # (long sweeps: at every declared and every 8th other value)
+                # an integer that happens to be a value of ANOTHER protocol enum is still just that integer
+                if Other is not None:
+                    clause = "construct_from_other_enum_value"
+                    y = E(Other(n))
+                    if hit is not None:
+                        if y is not hit[0]:
+                            fail(clause, step, f"E.{hit[1]}", repr(y), f"E(OtherEnum({n!r}))")
+                    elif not isinstance(y, E) or type(y) is not E or not (y == n) or y.name != "Unrecognized(%d)" % n:
+                        fail(clause, step, int(n), repr(y), f"E(OtherEnum({n!r}))")
 
             # ---- the declared members are untouched -------------------------------------
             clause = "members_unchanged_list"
